@@ -451,6 +451,7 @@ func runC05(c *Ctx) {
 
 	ruleCompressDst(c, p, "C05.dst")
 	ruleMethodTable(c, p, "C05.methods")
+	ruleCodecLimits(c, p, "C05.codec-limits")
 
 	// ---- C05.frame
 	ruleFrameLayout(c, p, "C05.frame", rb, wr)
@@ -849,4 +850,36 @@ func ruleFrameBounds(c *Ctx, p *core.Program, rule string) {
 		}
 	}()
 
+}
+
+// ruleCodecLimits: decoder-side resource caps of the third-party codecs are not below the library's own frame limit.
+func ruleCodecLimits(c *Ctx, p *core.Program, rule string) {
+	c.R.Rule(rule, "configuration of the third-party decoders in package compress: an option that caps what the decoder accepts (zstd.WithDecoderMaxWindow / WithDecoderMaxMemory) is not below the library's own limit for a frame's decompressed size (128 MiB): the encoder side is free to use any window up to the payload size, so a smaller cap rejects valid, checksum-verified frames the library itself produced")
+	cfg := p.Cfg.Name
+	n := 0
+	for _, fn := range p.Funcs() {
+		if pkgOf(fn) == nil || pkgOf(fn).Path() != core.PkgCompress {
+			continue
+		}
+		for _, call := range core.Calls(fn) {
+			f := core.CalleeFunc(call)
+			if f == nil || f.Pkg() == nil || !strings.HasSuffix(f.Pkg().Path(), "/zstd") || !strings.HasPrefix(f.Name(), "WithDecoderMax") {
+				continue
+			}
+			n++
+			key := core.CallKey(fn, call)
+			k, ok := core.ConstInt(call.Common().Args[0])
+			switch {
+			case !ok:
+				c.R.Unk(rule, key, cfg, p.Pos(call.Pos()), f.Name()+" with a non-constant limit")
+			case k < 128<<20:
+				c.R.Bad(rule, key, cfg, p.Pos(call.Pos()), sprintf("%s(%d) is below the 128 MiB a frame may legally hold: frames whose encoder window exceeds it fail to decode although their checksum verified", f.Name(), k))
+			default:
+				c.R.Ok(rule, key, cfg, p.Pos(call.Pos()), sprintf("%s(%d) >= frame limit", f.Name(), k))
+			}
+		}
+	}
+	if n == 0 {
+		c.R.Ok(rule, "compress", cfg, "", "no decoder-side cap configured").Trivial = true
+	}
 }
